@@ -74,6 +74,7 @@ func runC10(c *Ctx) {
 	defer c07EveryCommentStringParsed(c, "C10-R2")
 	defer pureClosure(c, "C10-R1", "parsing a file keeps no package-level state", "Parser.Parse", "a content reader (or any other parsing state) that is reused for the next file carries exclusion state over: an unterminated ignore/begin in one file silently excludes text of the next", "internal/parser.Parser.Parse")
 	defer c10ReadConsumes(c, "C10-R1")
+	defer c10ExcludedFileYieldsNothingElse(c, "C10-R2")
 	p := c.P
 	c.Rule("C10-R1", "comments parsed and excluded text blanked before a line is published; writers of the line buffer", 6)
 	c.Rule("C10-R2", "nothing is collected from lines excluded by an earlier comment; such lines are blanked completely", 8)
@@ -740,4 +741,43 @@ func c10ReadConsumes(c *Ctx, R string) {
 	})
 	c.Check(n >= 1 && bad == "", R, "ContentReader.Read:consumes exactly what it copied", fi.Decl.Pos(), itoa(n)+" store(s), all `r.buf = r.buf[n:]` after n := copy(…, r.buf)",
 		"Read changes the line buffer at "+bad+" by something other than dropping the bytes it has just copied out: bytes of the file never reach the YAML decoder (or reach it twice), so rules, positions and queries are those of a different text")
+}
+
+// c10ExcludedFileYieldsNothingElse: `# pint ignore/file` excludes the whole file. In discovery.readRules the
+// entry that says so (PathError: FileIgnoreError) is the last thing the function produces: from the place
+// where it is built no path leads to the walk over the parsed groups. Without that, rules above the comment
+// are linted although the file is excluded, and control comments in the excluded text below it attach to
+// them.
+func c10ExcludedFileYieldsNothingElse(c *Ctx, R string) {
+	rr := c.MustFunc(R, "internal/discovery.readRules")
+	if rr == nil {
+		return
+	}
+	info := rr.Pkg.TypesInfo
+	fl := c.P.NewFlow(rr)
+	isExcl := func(x ast.Node) bool {
+		cl, ok := x.(*ast.CompositeLit)
+		return ok && typeQName(info.TypeOf(cl)) == "internal/discovery.FileIgnoreError"
+	}
+	isGroups := func(x ast.Node) bool {
+		sel, ok := x.(*ast.SelectorExpr)
+		return ok && sel.Sel.Name == "Groups" && fieldOwner(info, sel) == "internal/parser.File"
+	}
+	excl := fl.Find(isExcl)
+	groups := fl.Find(isGroups)
+	if len(excl) == 0 || len(groups) == 0 {
+		c.Undecided(R, "readRules:excluded file entry and group walk", rr.Decl.Pos(), "FileIgnoreError literal or file.Groups not found ("+itoa(len(excl))+"/"+itoa(len(groups))+")")
+		return
+	}
+	bad := ""
+	for _, e := range excl {
+		for _, g := range groups {
+			target := g.Site
+			if r, _ := fl.Reach(e.Site.After(), func(s Site) bool { return s == target }, false, PathQ{}); r {
+				bad = c.P.Pos(g.Inner.Pos())
+			}
+		}
+	}
+	c.Check(bad == "", R, "readRules:nothing else is produced for a file excluded by ignore/file", excl[0].Inner.Pos(), "returns after the exclusion entry",
+		"after the entry for `# pint ignore/file` is built the parsed groups are still walked (at "+bad+"): rules of an excluded file are linted, and pint comments in its excluded part attach to them")
 }
